@@ -61,7 +61,7 @@ package allocation
 //@   ensures res != nil && fresh(res) && res.Addr == addr && res.timeout == timeout && res.log == log && res.lifetimeTimer == nil && res.allocation == nil
 
 //@ func (*Permission).start
-//@   ensures [C07:armed] timerSet(p.lifetimeTimer, lifetime) && fresh(p.lifetimeTimer)
+//@   ensures [C01,C07:armed] timerSet(p.lifetimeTimer, lifetime) && fresh(p.lifetimeTimer)
 //@   ensures [C01,C07:expiry-action] clofn(timerfn(p.lifetimeTimer)) == fnid("(*Permission).start$1") && *clovar(timerfn(p.lifetimeTimer), "(*Permission).start$1", 0) == p
 //@   ensures forall t :: t != p.lifetimeTimer ==> dur(t) == old(dur(t)) && armed(t) == old(armed(t)) && timerfn(t) == old(timerfn(t))
 //@   assigns p.lifetimeTimer, timers
@@ -75,7 +75,7 @@ package allocation
 //@ func (*Permission).refresh
 //@   requires [C18:timer-set] p.lifetimeTimer != nil
 //@   requires p.log != nil && p.allocation != nil
-//@   ensures [C07:restarted] timerSet(p.lifetimeTimer, lifetime)
+//@   ensures [C01,C07:restarted] timerSet(p.lifetimeTimer, lifetime)
 //@   ensures forall t :: t != p.lifetimeTimer ==> dur(t) == old(dur(t)) && armed(t) == old(armed(t))
 //@   ensures forall t :: timerfn(t) == old(timerfn(t))
 //@   assigns timers
@@ -93,12 +93,12 @@ package allocation
 //@   requires [C01:granted] granted[ipKey(perms.Addr)]
 //@   requires [C01:family] famOK(ipOf(perms.Addr), int(a.addressFamily))
 //@   ensures [C07:installed] has(a.permissions, ipKey(perms.Addr))
-//@   ensures [C07:full-restart] timerSet(a.permissions[ipKey(perms.Addr)].lifetimeTimer, perms.timeout)
+//@   ensures [C01,C07:full-restart] timerSet(a.permissions[ipKey(perms.Addr)].lifetimeTimer, perms.timeout)
 //@   ensures [C07:same-entry] old(has(a.permissions, ipKey(perms.Addr))) ==> a.permissions[ipKey(perms.Addr)] == old(a.permissions[ipKey(perms.Addr)])
 //@   ensures [C07:new-entry] !old(has(a.permissions, ipKey(perms.Addr))) ==> a.permissions[ipKey(perms.Addr)] == perms && perms.allocation == a
 //@   ensures [C01,C07:frame] forall k :: k != ipKey(perms.Addr) ==> haskey(a.permissions, k) == old(haskey(a.permissions, k)) && valat(a.permissions, k) == old(valat(a.permissions, k))
-//@   ensures [C07:other-timers] old(has(a.permissions, ipKey(perms.Addr))) ==> forall t :: t != old(a.permissions[ipKey(perms.Addr)].lifetimeTimer) ==> dur(t) == old(dur(t)) && armed(t) == old(armed(t))
-//@   ensures [C07:other-timers-new] !old(has(a.permissions, ipKey(perms.Addr))) ==> fresh(perms.lifetimeTimer) && forall t :: t != perms.lifetimeTimer ==> dur(t) == old(dur(t)) && armed(t) == old(armed(t))
+//@   ensures [C01,C07:other-timers] old(has(a.permissions, ipKey(perms.Addr))) ==> forall t :: t != old(a.permissions[ipKey(perms.Addr)].lifetimeTimer) ==> dur(t) == old(dur(t)) && armed(t) == old(armed(t))
+//@   ensures [C01,C07:other-timers-new] !old(has(a.permissions, ipKey(perms.Addr))) ==> fresh(perms.lifetimeTimer) && forall t :: t != perms.lifetimeTimer ==> dur(t) == old(dur(t)) && armed(t) == old(armed(t))
 //@   ensures allocWF(a) && permTimers(a)
 //@   ensures [C01,C07:keys] old(permKeysOK(a)) ==> permKeysOK(a)
 //@   ensures [C07:timers-disjoint] old(timersDisjoint(a)) ==> timersDisjoint(a)
@@ -168,7 +168,7 @@ package allocation
 //@   ensures [C08:range] old(chanRange(a)) ==> chanRange(a)
 //@   ensures [C07:chan-timer-new] res == nil && old(forall i :: 0 <= i && i < len(a.channelBindings) ==> a.channelBindings[i].Number != chanBind.Number) ==> len(a.channelBindings) == old(len(a.channelBindings)) + 1 && a.channelBindings[len(a.channelBindings)-1] == chanBind && timerSet(chanBind.lifetimeTimer, channelLifetime)
 //@   ensures [C07:chan-timer-refresh] res == nil && old(chanNumsUnique(a)) ==> forall i :: 0 <= i && i < len(a.channelBindings) && a.channelBindings[i].Number == chanBind.Number ==> timerSet(a.channelBindings[i].lifetimeTimer, channelLifetime)
-//@   ensures [C07:perm-timer] res == nil ==> has(a.permissions, ipKey(chanBind.Peer)) && timerSet(a.permissions[ipKey(chanBind.Peer)].lifetimeTimer, permissionLifetime)
+//@   ensures [C01,C07:perm-timer] res == nil ==> has(a.permissions, ipKey(chanBind.Peer)) && timerSet(a.permissions[ipKey(chanBind.Peer)].lifetimeTimer, permissionLifetime)
 //@   ensures allocWF(a) && permTimers(a) && chanTimers(a) && timersDisjoint(a) && chansWF(a) && chanPeersNonNil(a)
 //@   ensures [C01,C07:keys] old(permKeysOK(a)) ==> permKeysOK(a)
 //@   assigns a.channelBindings, mem(a.channelBindings), chanBind.allocation, chanBind.lifetimeTimer, entries(a.permissions), timers
